@@ -168,6 +168,10 @@ func ruleIMM2(c *Ctx) []Ob {
 							m := full[strings.LastIndex(full, ".")+1:]
 							switch m {
 							case "Store", "LoadOrStore", "Swap", "CompareAndSwap", "Put", "Delete", "LoadAndDelete":
+								if (m == "Store" || m == "LoadOrStore") && len(x.Common().Args) == 3 && pureMemo(x.Common().Args[1], x.Common().Args[2]) {
+									o.add(OK, c.fname(fn)+"/global "+g.Name()+" memoises through sync."+m, relPath(c, x.Pos()), "the entry is computed from the key alone (the key is the function's own argument): a memo of a pure function, never stale")
+									continue
+								}
 								if !(fn.Name() == "init" || strings.HasPrefix(fn.Name(), "init#")) {
 									o.add(VIOLATED, c.fname(fn)+"/global "+g.Name()+" mutated through sync."+m, relPath(c, x.Pos()), "package-level %s is filled at run time (a process-wide cache): results now depend on what earlier calls put there - conversion is no longer a function of its input alone", g.Name())
 								}
@@ -553,4 +557,92 @@ func stripFieldBase(addr ssa.Value) ssa.Value {
 		}
 		addr = fa.X
 	}
+}
+
+
+// pureMemo: the value stored in a cache is computed from the key alone, and the
+// key is (a conversion of) a parameter: every leaf of the value's backward slice
+// inside the function is that parameter or a constant, and every call on the way
+// is to the standard library (no library state, no store access).
+func pureMemo(key, val ssa.Value) bool {
+	var kp *ssa.Parameter
+	for _, og := range origins(stripIfaceOnly(key)) {
+		p, ok := stripConv(og).(*ssa.Parameter)
+		if !ok || (kp != nil && kp != p) {
+			return false
+		}
+		kp = p
+	}
+	if kp == nil {
+		return false
+	}
+	seen := map[ssa.Value]bool{}
+	var ok func(v ssa.Value, depth int) bool
+	ok = func(v ssa.Value, depth int) bool {
+		if v == nil || seen[v] {
+			return true
+		}
+		seen[v] = true
+		if depth > 12 {
+			return false
+		}
+		switch x := v.(type) {
+		case *ssa.Const:
+			return true
+		case *ssa.Parameter:
+			return x == kp
+		case *ssa.MakeInterface:
+			return ok(x.X, depth+1)
+		case *ssa.ChangeType:
+			return ok(x.X, depth+1)
+		case *ssa.Convert:
+			return ok(x.X, depth+1)
+		case *ssa.Phi:
+			for _, e := range x.Edges {
+				if !ok(e, depth+1) {
+					return false
+				}
+			}
+			return true
+		case *ssa.Extract:
+			return ok(x.Tuple, depth+1)
+		case *ssa.Call:
+			g := x.Common().StaticCallee()
+			if g == nil || g.Pkg == nil || strings.Contains(g.Pkg.Pkg.Path(), ".") {
+				return false // only standard-library functions are taken to be pure here
+			}
+			for _, a := range x.Common().Args {
+				if !ok(a, depth+1) {
+					return false
+				}
+			}
+			return true
+		case *ssa.Alloc:
+			// a fresh struct whose fields are all computed from the key
+			for _, r := range realReferrers(x) {
+				switch y := r.(type) {
+				case *ssa.FieldAddr:
+					for _, rr := range realReferrers(y) {
+						if st, isSt := rr.(*ssa.Store); isSt && st.Addr == ssa.Value(y) {
+							if !ok(st.Val, depth+1) {
+								return false
+							}
+						}
+					}
+				case *ssa.Store:
+					if y.Addr == ssa.Value(x) && !ok(y.Val, depth+1) {
+						return false
+					}
+				}
+			}
+			return true
+		case *ssa.UnOp:
+			if al, isAl := x.X.(*ssa.Alloc); isAl {
+				return ok(al, depth+1)
+			}
+			return false
+		}
+		return false
+	}
+	return ok(val, 0)
 }
